@@ -8,7 +8,14 @@ I/O faults at seeded call counts, Session restarts in between, and a small refer
   C24  per host file a list of records (WRITE# records with typed items, PRINT# lines) = a
        reference byte string; per file number a read cursor.  Values read = values written,
        EOF exactly at the end, LOF = bytes, APPEND extends, host bytes = model after CLOSE.
-  C25  per host file a bytearray; per file number record length, position, FIELD buffer.
+  C25  per host file a bytearray; per file number record length, position, FIELD buffer, ACCESS
+       mode; the acknowledged record locks.  PUT/GET that are refused (record locked through
+       another number on the same file, ACCESS mode) or fail in a host seek/read leave file,
+       buffer and - with an implicit record number - the record pointer where they were, and the
+       history goes on with the file open (retries).  Statements that reset the FIELD buffers
+       while files stay open (CHAIN, RUN/LOAD ,R of a program on the disk, CLEAR, NEW, DELETE,
+       entering a program line) and suspend/resume come in between; parts of a history run as
+       lines of the stored program instead of being typed.
   C26  the set of *acknowledged* locks (LOCK returned without error, not yet UNLOCKed/CLOSEd)
        and the open table; implementation-independent invariants over them.
 
@@ -29,7 +36,8 @@ from .common import execute, b, u
 NAME = 'files'
 PROPS = ('C24', 'C25', 'C26')
 RULE = ('one evaluation = one simulated history of file statements (OPEN/WRITE#/PRINT#/INPUT#/LINE INPUT#/'
-        'INPUT$/FIELD/LSET/RSET/PUT/GET/LOCK/UNLOCK/CLOSE, Session restarts, injected host I/O faults) checked '
+        'INPUT$/FIELD/LSET/RSET/PUT/GET/LOCK/UNLOCK/CLOSE, CHAIN/RUN,R/LOAD,R/CLEAR/NEW with files open, typed or run '
+        'as stored-program lines, Session restarts, suspend/resume, injected host I/O faults) checked '
         'statement by statement against the reference model; distinct = distinct (op kind, file mode, '
         'model-state buckets [records/cursor-at-end | record-position relation to file end | open handles, '
         'held locks, range relation], outcome, fault fired) tuples; non-trivial = the op reached the engine '
@@ -43,6 +51,12 @@ ASSUMPTIONS = [
     'with VAL(written text) in the same Session, decimal conversion itself is not re-verified',
     'GET beyond the end of a random file is modelled as zero bytes (DESIGN.md C25)',
     'C26 judges only what the property states: LOCK/OPEN refusals that the property does not demand are not judged',
+    'C25: a PUT/GET that reports an error because of a lock, the ACCESS mode or a failed host seek/read has not '
+    'accessed the record: with an implicit record number LOC and the next implicit record are unchanged; after such '
+    'a failure with an explicit record number the record pointer is read from LOC and not judged',
+    'C25: what the record buffer holds right after CHAIN/RUN,R/LOAD,R/CLEAR/NEW/DELETE/a typed program line is not '
+    'judged (the buffer is FIELDed again and read), nor which file numbers those statements leave open (asked with '
+    'LOC); PUT/GET/LOC/LOF on the numbers that stay open are judged as before',
 ]
 BATCH = 40
 
@@ -53,7 +67,20 @@ SENT_N = -9999
 
 
 def quick_runs(prop):
-    return {'C24': 14000, 'C25': 24000, 'C26': 20000}[prop]
+    return {'C24': 14000, 'C25': 18000, 'C26': 20000}[prop]
+
+
+class ProgModeBroken(Exception):
+    """The harness could not put a statement into the stored program (MERGE of a two-line file failed)."""
+
+    def __init__(self, stmt, err):
+        Exception.__init__(self, 'MERGE failed with %r' % (err,))
+        self.stmt = stmt
+        self.err = err
+
+
+# the program that CHAIN / RUN ,R / LOAD ,R load (plain text; line 20 is the slot for the next statement)
+P2_TEXT = b'10 REM P2\r\n20 REM\r\n30 STOP\r\n\x1a'
 
 
 class FaultCrash(Exception):
@@ -80,6 +107,10 @@ class Ctx(object):
         self.trace = []
         self.lastfired = []
         self.tainted = None     # label of an earlier faulted statement whose aftermath we are in
+        # program mode: every statement is put into the stored program as line 20 (MERGE of a two-line
+        # text file, which keeps variables, files and FIELD buffers) and run there with GOTO 20; the
+        # program stops at line 30 STOP (files stay open), or with the statement's error "... in 20"
+        self.prog = False
 
     def start(self):
         self.d = Driver(self.w, devices={'C:': self.root}, current_device='C:', **self.skw)
@@ -102,9 +133,16 @@ class Ctx(object):
     def x(self, line, label=None):
         """Execute a statement; remember which injected faults fired in it."""
         n0 = len(self.fs.fired)
-        self.trace.append(u(line)[:120])
+        self.trace.append((u'[program line 20] ' if self.prog else u'') + u(line)[:120])
         try:
-            r = self.d.exec(line)
+            if self.prog:
+                self.put_host('OV.BAS', b'20 ' + line + b'\r\n30 STOP\r\n\x1a')
+                r = self.d.exec(b'MERGE "OV"')
+                if r.err is not None:
+                    raise ProgModeBroken(line, r.err)
+                r = self.d.exec(b'GOTO 20')
+            else:
+                r = self.d.exec(line)
         except EngineCrash as e:
             fired = self.fs.fired[n0:]
             if fired or self.tainted:
@@ -172,6 +210,8 @@ class Base(object):
     def op_fault(self, op):
         # at most one pending fault, so that a statement is hit by at most one (clean signatures)
         self.cx.fs.disarm()
+        if self.cx.prog:
+            return    # in program mode the MERGE that places the statement would take the fault
         self.cx.fs.arm(op['kind'], op['nth'], getattr(errno, op['err']), torn=op.get('torn'))
         self.run.probe('fault-armed')
 
@@ -572,7 +612,12 @@ class Seq(Base):
             if not same:
                 if any(g['t'] == 's' and len(g['v']) == 255 for g in got[:j]):
                     h['after255'] = True
-                return self.bad('input#-mismatch' + self.suffix(h), '%r: item %d read back as %r, written as %r '
+                shape = ''
+                if it['t'] == 's' and it['v'].startswith(b'\r\n'):
+                    # input shape of a confirmed defect: the first character after the opening quote is read
+                    # with CR LF folding, the rest of a quoted string is not
+                    shape = ':quoted-string-starting-with-CR-LF'
+                return self.bad('input#-mismatch' + shape + self.suffix(h), '%r: item %d read back as %r, written as %r '
                                 '(record %r)' % (stmt, j, v if it['t'] == 'n' else v[:60], it['v'][:60],
                                                  recs[h['ri']]['raw'][:80]))
         if self._read_failed(n, h, r, stmt, 'INPUT#'):
@@ -657,7 +702,9 @@ class Seq(Base):
         if fk:
             self.cx.fs.disarm()
         h['off'] += k
-        h['after255'] = False
+        # (the after-255 marker stays: while the terminator of a 255-character item is still unread, a
+        # character or two from INPUT$ can equal the reference by coincidence - the closing quote read as
+        # the next item's opening quote - and the engine is still one separator behind)
         self._check_eof(n, h)
 
     def op_eof(self, op):
@@ -706,14 +753,19 @@ class Rand(Base):
         self.files = {}      # name -> bytearray | None
         self.flags = {}      # name -> set of history markers that go into signatures
         self.max_reclen = cfg['session'].get('max_reclen', 128)
+        self.locks = []      # acknowledged record locks: (number, first, last) | (number, None, None)
+        self.writers = {}    # name -> numbers that have PUT to the file since it was last proven equal
 
     def suffix(self, name):
         """One history marker (the most specific cause candidate) for the signature."""
         fl = self.flags.get(name, ())
+        if 'two-numbers-on-file' in fl:
+            # stale data through another number's buffer is possible (see touch()): nothing more specific can be said
+            return ':two-numbers-on-file'
         for k in reversed(fl):
             if k.startswith('after-'):
                 return ':' + k
-        for k in ('two-numbers-on-file', 'put-beyond-eof(recno-1>LOF>0)', 'implicit-put-after-get-at-or-beyond-eof'):
+        for k in ('put-beyond-eof(recno-1>LOF>0)', 'implicit-put-after-get-at-or-beyond-eof'):
             if k in fl:
                 return ':' + k
         return ''
@@ -735,6 +787,69 @@ class Rand(Base):
 
     def sharers(self, name, n=None):
         return [k for k, hh in self.h.items() if hh['name'] == name and k != n]
+
+    def touch(self, n, name):
+        """
+        #n is about to read or write file data. Each file number has its own host handle and buffer
+        (known finding `two-numbers-on-file`): what #n sees can be stale only if some *other* number
+        has PUT to the file since the file was last proven equal to the reference - from then on
+        (and only then) the file carries the history marker. A second number that merely holds the
+        file open, or only LOCKs/UNLOCKs, does not make anything stale.
+        """
+        if self.writers.get(name, set()) - {n}:
+            if 'two-numbers-on-file' not in self.flags.get(name, ()):
+                self.run.probe('stale-data-possible(two-numbers-on-file)')
+            self.flag(name, 'two-numbers-on-file')
+
+    def wrote(self, n, name):
+        self.writers.setdefault(name, set()).add(n)
+
+    def denied(self, n, h, recno, write):
+        """
+        Must an access to record recno through #n be refused?  True: the number was opened with an
+        ACCESS clause that excludes it, or another number holds an acknowledged LOCK on the record;
+        None: another number holds a lock with that record number but has a different record length
+        (what range of *this* number's records that covers is not stated anywhere: either outcome is
+        taken); False: nothing stands in the way, an error would be a violation.
+        C25 does not judge whether the refusal happens (C26 does), only what a refused access leaves behind.
+        """
+        acc = h.get('access') or ''
+        if acc and ('W' if write else 'R') not in acc:
+            return True
+        res = False
+        for (k, a, bb) in self.locks:
+            hk = self.h.get(k)
+            if k == n or hk is None or hk['name'] != h['name']:
+                continue
+            if a is None:
+                return True
+            if a <= recno <= bb:
+                if hk['reclen'] == h['reclen']:
+                    return True
+                res = None
+        return res
+
+    def drop_locks(self, n):
+        self.locks = [l for l in self.locks if l[0] != n]
+
+    def soft_fail(self, n, h, op, word, why):
+        """
+        PUT/GET reported an error before anything was transferred (refused by a lock or the ACCESS
+        mode, or an injected host error in a seek/read): the file and the record buffer are unchanged
+        and the file stays open. The record was not accessed, so with an implicit record number the
+        same record is still the next one and LOC has not moved. After a failed access with an
+        *explicit* number the property does not say where the record pointer is: LOC is read
+        (not judged) and taken as the position.
+        """
+        self.run.probe('%s-failed-file-stays-open:%s:%s' % (word, why, 'explicit' if op.get('rec') is not None else 'implicit'))
+        self.run.state('C25', 'soft-fail', word, why, op.get('rec') is None, min(h['pos'], 3))
+        if not self.check_buffer(n, h, 'buffer-changed-by-failed-' + word):
+            return
+        if op.get('rec') is not None:
+            err, v = self.cx.fn(b'LOC(%d)' % n, 'LOC')
+            if err is not None:
+                return self.bad('loc-error', 'LOC(%d) gave error %d' % (n, err))
+            h['pos'] = int(v)
 
     def check_buffer(self, n, h, what):
         """FIELD variables show the reference buffer."""
@@ -769,7 +884,9 @@ class Rand(Base):
         else:
             # proven equal: whatever happened to this file before left no trace
             self.flags.pop(name, None)
-            if self.sharers(name):
+            if not self.sharers(name):
+                self.writers.pop(name, None)
+            elif self.writers.get(name):
                 self.flag(name, 'two-numbers-on-file')
 
     # ops ---------------------------------------------------------------------
@@ -793,7 +910,13 @@ class Rand(Base):
         if others and not self.cfg.get('share'):
             return
         syn = op.get('syn', 0)
-        if syn == 1:
+        access = op.get('access', '')
+        if access:
+            # ACCESS only restricts what this number may do (no LOCK clause: sharing is as without it)
+            stmt = b'OPEN "%s" %sACCESS %s AS #%d LEN=%d' % (
+                b(name), b'FOR RANDOM ' if syn else b'', {'R': b'READ', 'W': b'WRITE', 'RW': b'READ WRITE'}[access],
+                n, reclen)
+        elif syn == 1:
             stmt = b'OPEN "R",#%d,"%s",%d' % (n, b(name), reclen)
         elif syn == 2:
             stmt = b'OPEN "%s" FOR RANDOM AS #%d LEN=%d' % (b(name), n, reclen)
@@ -839,9 +962,9 @@ class Rand(Base):
                                 'is now %r..., %d bytes' % (stmt, len(self.files[name]), (after or b'')[:24],
                                                             len(after or b'')))
         if others:
-            self.flag(name, 'two-numbers-on-file')
             self.run.probe('file-open-under-two-numbers')
-        h = {'name': name, 'reclen': reclen, 'pos': 0, 'buf': bytearray(b' ' * reclen), 'fields': []}
+        h = {'name': name, 'reclen': reclen, 'pos': 0, 'buf': bytearray(b' ' * reclen), 'fields': [],
+             'access': access}
         self.h[n] = h
         # make the buffer known: one variable over the whole record, blanked
         r = self.cx.x(b'FIELD #%d,%d AS Z%d$:LSET Z%d$=""' % (n, reclen, n, n), 'FIELD')
@@ -906,14 +1029,23 @@ class Rand(Base):
             return    # would create a huge file; not sent
         name = h['name']
         data = self.files[name]
+        deny = self.denied(n, h, pos + 1, True) if valid else False
+        if valid:
+            self.touch(n, name)
         r = self.cx.x(stmt, 'PUT')
         fk = self.fired_kind()
         if not valid:
             self.note('put-out-of-range', h, fired=fk)
             return self._range_error(stmt, r)
         gap = pos * h['reclen'] - len(data)
-        self.note('put', h, (gap > 0) - (gap < 0), fk)
+        self.note('put', h, ((gap > 0) - (gap < 0), deny), fk)
         new = bytes(h['buf'])
+        if r.err is not None and fk != 'write' and (deny is not False or (fk == 'seek' and gap <= 0)):
+            # refused, or a host seek failed in a PUT that does not extend the file (nothing can have
+            # been written yet: the record itself is written last)
+            return self.soft_fail(n, h, op, 'PUT', 'seek-fault' if fk else ('lock' if not h['access'] else 'lock-or-access'))
+        if deny is not False:
+            self.run.probe('put-to-locked-or-excluded-record-accepted(not judged here)')
         if op.get('rec') is None and h.get('get_at_eof'):
             self.flag(name, 'implicit-put-after-get-at-or-beyond-eof')
             self.run.probe('implicit-put-after-get-at-or-beyond-eof')
@@ -925,6 +1057,7 @@ class Rand(Base):
                 return self.bad('put-error' + self.suffix(name), '%r gave error %d' % (stmt, r.err))
             self.run.probe('put-fault->BASIC-error')
             return self.resync(n, (pos, new), 'PUT')
+        self.wrote(n, name)
         if gap > 0:
             self.run.probe('record-gap-filled')
             data.extend(b'\0' * gap)
@@ -947,13 +1080,23 @@ class Rand(Base):
             return
         name = h['name']
         data = self.files[name]
+        deny = self.denied(n, h, pos + 1, False) if valid else False
+        if valid and deny is not False and pos >= 2 ** 24:
+            return    # LOC could not tell where a refused access to such a record leaves the pointer
+        if valid:
+            self.touch(n, name)
         r = self.cx.x(stmt, 'GET')
         fk = self.fired_kind()
         if not valid:
             self.note('get-out-of-range', h, fired=fk)
             return self._range_error(stmt, r)
         start = pos * h['reclen']
-        self.note('get', h, 'in' if start + h['reclen'] <= len(data) else ('partial' if start < len(data) else 'out'), fk)
+        self.note('get', h, ('in' if start + h['reclen'] <= len(data) else ('partial' if start < len(data) else 'out'), deny), fk)
+        if r.err is not None and (deny is not False or (fk in ('seek', 'read') and pos < 2 ** 24)):
+            # refused, or a host seek/read failed before anything was delivered
+            return self.soft_fail(n, h, op, 'GET', '%s-fault' % fk if fk else ('lock' if not h['access'] else 'lock-or-access'))
+        if deny is not False:
+            self.run.probe('get-of-locked-or-excluded-record-accepted(not judged here)')
         if r.err is not None:
             if not fk:
                 return self.bad('get-error' + self.suffix(name), '%r gave error %d' % (stmt, r.err))
@@ -977,6 +1120,7 @@ class Rand(Base):
         h = self.h.get(n)
         if h is None:
             return
+        self.touch(n, h['name'])
         err, v = self.cx.fn(b'LOF(%d)' % n, 'LOF')
         fk = self.fired_kind()
         self.note('lof', h, fired=fk)
@@ -1021,14 +1165,114 @@ class Rand(Base):
             finally:
                 self.cx.tainted = None
         del self.h[n]
+        self.drop_locks(n)
         if fk:
             self.cx.fs.disarm()
         if not self.sharers(h['name']):
             self.verify_host(h['name'])
 
+    def op_lock(self, op):
+        """LOCK/UNLOCK through a number on a random file; the model keeps the acknowledged locks."""
+        n, a, bb = op['n'], op.get('a'), op.get('b')
+        unlock = op['op'] == 'unlock'
+        word = b'UNLOCK' if unlock else b'LOCK'
+        if a is None:
+            stmt, bb = b'%s #%d' % (word, n), None
+        elif bb is None:
+            stmt, bb = b'%s #%d,%d' % (word, n, a), a
+        else:
+            stmt = b'%s #%d,%d TO %d' % (word, n, a, bb)
+        if a is not None and not 1 <= a <= bb <= 2 ** 24:
+            return
+        r = self.cx.x(stmt, word.decode())
+        h = self.h.get(n)
+        if h is None:
+            return
+        self.run.state('C25', word, min(len(self.locks), 3), len(self.sharers(h['name'], n)), r.err)
+        # whether the (un)lock had to be granted is C26's business; the model follows the acknowledgement
+        if r.err is None:
+            if not unlock:
+                self.locks.append((n, a, bb))
+                self.run.probe('lock-acknowledged')
+            elif (n, a, bb) in self.locks:
+                self.locks.remove((n, a, bb))
+
+    op_unlock = op_lock
+
+    def op_mode(self, op):
+        """Switch between typing the statements (direct mode) and running them as lines of the stored program."""
+        self.cx.fs.disarm()
+        self.cx.prog = bool(op.get('prog'))
+        self.cx.trace.append('<from here on statements %s>' % ('run inside the stored program (MERGEd as line 20, GOTO 20)'
+                                                             if self.cx.prog else 'are typed'))
+        self.run.state('C25', 'mode', self.cx.prog, len(self.h))
+
+    def op_resume(self, op):
+        # open files, their record buffers and positions survive suspend/resume; the model is unchanged
+        self.cx.resume()
+        self.run.state('C25', 'resume', len(self.h), self.cx.prog)
+
+    RESETS = {
+        'chain': b'CHAIN "P2"', 'chainmerge': b'CHAIN MERGE "P2"', 'chainall': b'CHAIN "P2",,ALL',
+        'runr': b'RUN "P2",R', 'loadr': b'LOAD "P2",R', 'run': b'RUN "P2"', 'load': b'LOAD "P2"',
+        'clear': b'CLEAR', 'new': b'NEW', 'delete': b'DELETE 10', 'edit': b'15 REM',
+    }
+
+    def op_reset(self, op):
+        """
+        A statement that clears the variables (and with them the FIELD definitions) and resets the
+        record buffers: CHAIN to / RUN ,R / LOAD ,R of a program saved on the disk (files stay open),
+        CLEAR, NEW, DELETE, entering a program line, RUN/LOAD of a file (files are closed).
+        Which numbers are still open afterwards is *asked* (LOC), not demanded; for those the file
+        position is unchanged and PUT/GET must go on working on the same records. The content of the
+        record buffer right after the reset is not judged: the buffer is FIELDed again and read.
+        """
+        kind = op['kind']
+        self.cx.fs.disarm()
+        self.cx.put_host('P2.BAS', P2_TEXT)
+        was_prog = self.cx.prog
+        if kind == 'edit':
+            self.cx.prog = False      # a program line is typed, never part of a program
+        try:
+            r = self.cx.x(self.RESETS[kind], 'RESET')
+        finally:
+            self.cx.prog = was_prog
+        self.run.state('C25', 'reset', kind, self.cx.prog, len(self.h), r.err)
+        self.run.probe('reset:' + kind)
+        closed = []
+        for n in sorted(self.h):
+            h = self.h[n]
+            err, v = self.cx.fn(b'LOC(%d)' % n, 'LOC')
+            if err is not None:
+                closed.append(n)
+                continue
+            self.run.probe('random-file-still-open-after:' + kind)
+            if h['pos'] <= 2 ** 24 and v != h['pos']:
+                return self.bad('loc-mismatch' + self.suffix(h['name']), 'LOC(%d)=%r after %s, last '
+                                'record accessed is %d' % (n, v, u(self.RESETS[kind]), h['pos']))
+            h['fields'] = []
+            r = self.cx.x(b'FIELD #%d,%d AS Z%d$' % (n, h['reclen'], n), 'FIELD')
+            if r.err is not None:
+                return self.bad('field-error:after-buffer-reset', 'FIELD over the whole record gave error %d' % r.err)
+            v = bytes(self.cx.d.get(b'Z%d$' % n))
+            if len(v) != h['reclen']:
+                return self.bad('field-variable-mismatch:after-buffer-reset', 'FIELD #%d,%d AS Z%d$ gives a variable of '
+                                'length %d' % (n, h['reclen'], n, len(v)))
+            h['buf'] = bytearray(v)
+            self.flag(h['name'], 'after-buffer-reset')
+        names = set()
+        for n in closed:
+            names.add(self.h.pop(n)['name'])
+            self.drop_locks(n)
+            self.run.probe('random-file-closed-by:' + kind)
+        for name in sorted(names):
+            if not self.run.stop and not self.sharers(name):
+                self.verify_host(name)
+
     def op_restart(self, op):
         self.cx.restart()
         hs, self.h = self.h, {}
+        self.locks = []
         self.run.state('C25', 'restart', len(hs))
         for name in sorted(set(hh['name'] for hh in hs.values())):
             self.verify_host(name)
@@ -1058,6 +1302,7 @@ class Rand(Base):
                 return
             lost_ok = lost_ok or failed > 0
             del self.h[k]
+            self.drop_locks(k)
         old = bytes(self.files[name])
         host = self.cx.host(name)
         if host is None:
@@ -1516,17 +1761,44 @@ def gen24(rng, tier):
 
 def gen25(rng, tier):
     max_reclen = rng.choice([1, 2, 7, 16, 32, 64, 128, 128, 128, 255])
+    # '' = every file under one number at a time; 'locker' = a second number on the same file that only
+    # LOCKs/UNLOCKs (nothing can be stale); 'both' = two numbers that both transfer data (known finding)
+    share = _wchoice(rng, [('', 66), ('locker', 22), ('both', 12)])
     cfg = {
-        'session': {'max_files': rng.randint(1, 6), 'max_reclen': max_reclen},
-        'faults': rng.random() < 0.45, 'share': rng.random() < 0.15,
+        'session': {'max_files': rng.randint(2 if share else 1, 6), 'max_reclen': max_reclen},
+        'faults': rng.random() < 0.45, 'share': share,
     }
     maxf = cfg['session']['max_files']
-    names = ['R0.DAT', 'R1.DAT', 'R2'][:rng.randint(1, 3)]
+    resets = rng.random() < 0.22          # histories with CHAIN / RUN ,R / CLEAR / NEW ... while files are open
+    progruns = rng.random() < 0.14        # histories (partly) run as lines of a stored program
+    p_access = 0.12 if rng.random() < 0.35 else 0.0
+    names = ['R0.DAT', 'R1.DAT', 'R2'][:rng.randint(1, 2 if share else 3)]
     lens = [min(max_reclen, x) for x in (1, 2, 3, 4, 5, 8, 13, 16, 32, 64, 100, 128, max_reclen)]
     reclen_of = {nm: rng.choice(lens) for nm in names}
     nops = rng.randint(8, 50) if tier == 'quick' else rng.randint(40, 220)
     ops = []
-    opened = {}
+    opened = {}      # number -> [name, reclen, lock-only?, guessed record position]   (generation-time guess)
+    glocks = []      # guessed held locks (number, a, b)
+    if progruns and rng.random() < 0.7:
+        ops.append({'op': 'mode', 'prog': True})
+
+    def access_op(n, implicit=None):
+        x = rng.random()
+        if implicit is None:
+            implicit = x < (0.45 if share or p_access else 0.30)
+        if implicit:
+            rec = None
+            opened[n][3] += 1
+        elif x < 0.72:
+            rec = str(rng.randint(1, 12))
+        elif x < 0.89:
+            rec = str(rng.choice([rng.randint(13, 60), rng.randint(61, 400), rng.randint(100, 2000)]))
+        else:
+            rec = rng.choice(['0', '-1', '-32768', '33554432', '33554440', '4E+7', '1E+10', '-1E+10', '16777215'])
+        if rec is not None and 1 <= _recno(rec) <= 2000:
+            opened[n][3] = _recno(rec)
+        return {'op': 'put' if rng.random() < 0.5 else 'get', 'n': n, 'rec': rec}
+
     while len(ops) < nops:
         r = rng.random()
         if cfg['faults'] and r < 0.06:
@@ -1538,26 +1810,97 @@ def gen25(rng, tier):
         if r < 0.02:
             ops.append({'op': 'restart'})
             opened = {}
+            glocks = []
             continue
-        if not opened or r < 0.12:
+        if opened and resets and rng.random() < 0.06:
+            ops.append({'op': 'reset', 'kind': _wchoice(rng, [
+                ('chain', 5), ('chainmerge', 1), ('chainall', 1), ('runr', 2), ('loadr', 2), ('clear', 2), ('new', 1),
+                ('delete', 1), ('edit', 1), ('run', 0.5), ('load', 0.5)])})
+            if ops[-1]['kind'] in ('run', 'load'):
+                opened = {}
+                glocks = []
+            continue
+        if progruns and rng.random() < 0.03:
+            ops.append({'op': 'mode', 'prog': rng.random() < 0.6})
+            continue
+        if opened and rng.random() < 0.012:
+            ops.append({'op': 'resume'})
+            continue
+        second = share and len(opened) == 1 and rng.random() < 0.35
+        if not opened or r < 0.12 or second:
             n = rng.randint(1, maxf) if rng.random() < 0.93 else maxf + 1
             name = rng.choice(names)
-            reclen = reclen_of[name] if rng.random() < 0.8 else rng.choice(lens + [max_reclen + 1])
-            ops.append({'op': 'ropen', 'n': n, 'name': name, 'reclen': reclen, 'syn': rng.randint(0, 2)})
+            if second:
+                name = opened[sorted(opened)[0]][0]
+                n = rng.choice([k for k in range(1, maxf + 1) if k not in opened])
+            reclen = reclen_of[name] if rng.random() < (0.92 if share else 0.8) else rng.choice(lens + [max_reclen + 1])
+            op = {'op': 'ropen', 'n': n, 'name': name, 'reclen': reclen, 'syn': rng.randint(0, 2)}
+            if rng.random() < p_access:
+                op['access'] = _wchoice(rng, [('R', 4), ('W', 3), ('RW', 2)])
+            ops.append(op)
             if n not in opened and n <= maxf and reclen <= max_reclen:
-                opened[n] = (name, reclen)
+                shared = any(v[0] == name for v in opened.values())
+                if not shared or share:
+                    opened[n] = [name, reclen, share == 'locker' and shared, 0]
             continue
         n = rng.choice(sorted(opened))
         if rng.random() < 0.04:
             n = rng.randint(1, maxf + 1)
+        me = opened.get(n)
+        partners = [k for k in sorted(opened) if me and k != n and opened[k][0] == me[0]]
         if r < 0.19:
+            if me and me[2] and rng.random() < 0.6:
+                continue      # the lock-only number is closed less often
             ops.append({'op': 'rclose', 'n': n})
             opened.pop(n, None)
-        elif r < 0.25:
+            glocks = [l for l in glocks if l[0] != n]
+            continue
+        if partners and (me[2] or rng.random() < 0.22):
+            # LOCK/UNLOCK through this number, aimed at the record the other number will access next
+            mine = [l for l in glocks if l[0] == n]
+            if mine and rng.random() < 0.45:
+                l = rng.choice(mine)
+                glocks.remove(l)
+                ops.append({'op': 'unlock', 'n': n, 'a': l[1], 'b': l[2]})
+                if rng.random() < 0.15:
+                    ops[-1]['a'] = (l[1] or 0) + 1       # not the bounds that were locked
+                continue
+            m = rng.choice(partners)
+            x = rng.random()
+            if x < 0.08:
+                a = bb = None
+            else:
+                a = opened[m][3] + 1 if x < 0.7 else rng.randint(1, 8)
+                bb = _wchoice(rng, [(None, 4), (a, 1), (a + 1, 2), (a + rng.randint(2, 5), 1)])
+            ops.append({'op': 'lock', 'n': n, 'a': a, 'b': bb})
+            held = (n, a, a if (bb is None and a is not None) else bb)
+            glocks.append(held)
+            if rng.random() < 0.65:
+                # the other number runs into the lock, the lock is released, the access is repeated
+                word = rng.choice(['put', 'get'])
+                implicit = rng.random() < 0.75
+                blocked = {'op': word, 'n': m, 'rec': None if implicit or a is None else str(a)}
+                ops.append(dict(blocked))
+                if rng.random() < 0.3:
+                    ops.append({'op': rng.choice(['loc', 'lof']), 'n': m})
+                if rng.random() < 0.85:
+                    ops.append({'op': 'unlock', 'n': n, 'a': held[1], 'b': held[2]})
+                    glocks.remove(held)
+                if rng.random() < 0.8:
+                    ops.append(dict(blocked))
+                    opened[m][3] = (opened[m][3] + 1) if blocked['rec'] is None else a
+                ops.append({'op': rng.choice(['loc', 'lof', 'get']), 'n': m})
+                if ops[-1]['op'] == 'get':
+                    ops[-1]['rec'] = str(rng.randint(1, max(1, opened[m][3] + 1)))
+                    opened[m][3] = _recno(ops[-1]['rec'])
+            continue
+        if me and me[2]:
+            continue
+        if r < 0.25:
             ops.append({'op': 'field', 'n': n, 'cuts': [round(rng.random(), 3) for _ in range(rng.randint(0, 4))],
                         'cover': rng.choice([1.0, 1.0, 1.0, 0.5, 0.75])})
         elif r < 0.45:
-            rl = opened.get(n, ('', 8))[1]
+            rl = me[1] if me else 8
             ln = min(255, _wchoice(rng, [(0, 1), (rng.randint(1, max(1, rl)), 6), (rl + rng.randint(1, 5), 2)]))
             ops.append({'op': 'lset', 'n': n, 'f': _wchoice(rng, [(0, 5), (1, 3), (2, 2), (3, 1)]),
                         'val': u(_gen_bytes(rng, ln, rng.choice(['plain', 'bytes']), b'')),
@@ -1565,16 +1908,12 @@ def gen25(rng, tier):
         elif r < 0.55:
             ops.append({'op': rng.choice(['lof', 'loc']), 'n': n})
         else:
-            x = rng.random()
-            if x < 0.30:
-                rec = None
-            elif x < 0.70:
-                rec = str(rng.randint(1, 12))
-            elif x < 0.88:
-                rec = str(rng.choice([rng.randint(13, 60), rng.randint(61, 400), rng.randint(100, 2000)]))
+            if me is None:
+                opened[n] = ['', 8, False, 0]
+                ops.append(access_op(n))
+                del opened[n]
             else:
-                rec = rng.choice(['0', '-1', '-32768', '33554432', '33554440', '4E+7', '1E+10', '-1E+10', '16777215'])
-            ops.append({'op': 'put' if rng.random() < 0.5 else 'get', 'n': n, 'rec': rec})
+                ops.append(access_op(n))
     return cfg, ops
 
 
@@ -1715,6 +2054,9 @@ def run(case):
                     m.step(op)
                 if not run.stop:
                     m.finish()
+            except ProgModeBroken as e:
+                run.violate(prop, 'program-mode:statement-line-not-merged', 'MERGE "OV" (a two-line text file holding '
+                            '%r as line 20) gave error %r\n  statements: %s' % (e.stmt, e.err, cx.witness()))
             except FaultCrash as e:
                 kinds = e.fired[-1][0]
                 run.violate(prop, 'fault-escapes:%s:%s:%s' % (e.label, kinds, e.crash.signature),
@@ -1758,8 +2100,13 @@ def simplify(cfg, ops):
             yield cfg, ops[:i] + [dict(op, cuts=[], cover=1.0)] + ops[i + 1:]
         elif k == 'open' and (op.get('access') or op.get('lock')):
             yield cfg, ops[:i] + [dict(op, access='', lock='')] + ops[i + 1:]
+        elif k == 'ropen' and op.get('access'):
+            yield cfg, ops[:i] + [dict(op, access='')] + ops[i + 1:]
+        elif k == 'reset' and op['kind'] != 'clear':
+            yield cfg, ops[:i] + [dict(op, kind='clear')] + ops[i + 1:]
     ses = cfg['session']
     if ses.get('max_files', 3) != 3 and all(op.get('n', 1) <= 3 for op in ops):
         yield dict(cfg, session=dict(ses, max_files=3)), ops
-    if ses.get('soft_linefeed'):
+    if ses.get('soft_linefeed') and cfg.get('strings', {}).get('crlf') != 'crlf':
+        # (strings with CR LF inside are only read back with soft_linefeed: not a simpler equivalent there)
         yield dict(cfg, session=dict(ses, soft_linefeed=False)), ops
